@@ -663,7 +663,10 @@ pub fn two_peer_probe(node: &mut node::Node, rt: &tokio::runtime::Runtime, rng: 
             .output_data(ckb_types::bytes::Bytes::new().pack())
             .build()
     };
-    let n1 = 1 + rng.below(3);
+    // variants 2, 3: the second peer's body is MALFORMED (what CompactBlockVerifier refuses): it must be refused although a
+    // compact block for this header is already pending
+    let variant = serial % 4;
+    let n1 = if variant >= 2 { 3 + rng.below(2) } else { 1 + rng.below(3) };
     let extra = 1 + rng.below(4);
     let txs: Vec<core::TransactionView> = std::iter::once(cellbase_shaped(900_000 + serial)).chain((0..n1).map(|k| mk_tx(k))).collect();
     let parts = Parts { txs: txs.clone(), uncles: vec![], extension: None, prefilled: vec![], tx_avail: vec![], uncle_state: vec![] };
@@ -673,7 +676,30 @@ pub fn two_peer_probe(node: &mut node::Node, rt: &tokio::runtime::Runtime, rng: 
     // the same header, more short ids
     let mut ids: Vec<packed::ProposalShortId> = cb1.short_ids().into_iter().collect();
     for k in 0..extra { ids.push(mk_tx(500 + k).proposal_short_id()); }
-    let cb2 = cb1.clone().as_builder().short_ids(ids.pack()).build();
+    let it = |ix: u32, t: &core::TransactionView| packed::IndexTransaction::new_builder().index(Pack::<packed::Uint32>::pack(&ix)).transaction(t.data()).build();
+    let cb2 = match variant {
+        2 => {
+            // prefilled indexes 0, 2, 1: not strictly increasing
+            let rest: Vec<packed::ProposalShortId> = txs[3..].iter().map(|t| t.proposal_short_id()).collect();
+            cb1.clone().as_builder().prefilled_transactions(vec![it(0, &txs[0]), it(2, &txs[2]), it(1, &txs[1])].pack()).short_ids(rest.pack()).build()
+        }
+        3 => {
+            // a prefilled index beyond the block, or the same short id twice
+            if rng.chance(1, 2) {
+                let rest: Vec<packed::ProposalShortId> = txs[2..].iter().map(|t| t.proposal_short_id()).collect();
+                cb1.clone().as_builder().prefilled_transactions(vec![it(0, &txs[0]), it(txs.len() as u32 + 3, &txs[1])].pack()).short_ids(rest.pack()).build()
+            } else {
+                let mut dup: Vec<packed::ProposalShortId> = cb1.short_ids().into_iter().collect();
+                let d = dup[0].clone();
+                dup.push(d);
+                cb1.clone().as_builder().short_ids(dup.pack()).build()
+            }
+        }
+        _ => cb1.clone().as_builder().short_ids(ids.pack()).build(),
+    };
+    if variant >= 2 && ckb_sync::verif_compact_block_verify(&cb2).is_ok() {
+        viol.push(("the harness built a malformed compact block that CompactBlockVerifier accepts".into(), json!({"compact_block": hex(cb2.as_slice())})));
+    }
     let hash = full.hash();
     let (pa, pb) = (PeerIndex::new(800_000 + serial as usize * 2), PeerIndex::new(800_001 + serial as usize * 2));
     let (ctx_a, ctx_b) = (Arc::new(Ctx::default()), Arc::new(Ctx::default()));
@@ -694,7 +720,14 @@ pub fn two_peer_probe(node: &mut node::Node, rt: &tokio::runtime::Runtime, rng: 
     if !deliver(pa, &ctx_a, packed::RelayMessage::new_builder().set(cb1.clone()).build(), "the first peer's compact block", &mut viol) { return viol; }
     let _ = wait_req(&ctx_a);
     if !deliver(pb, &ctx_b, packed::RelayMessage::new_builder().set(cb2.clone()).build(), "the second peer's compact block (same header, more short ids)", &mut viol) { return viol; }
-    let req_b = wait_req(&ctx_b);
+    let req_b = if variant >= 2 {
+        // nothing may be asked of the second peer, and the pending block is still the first peer's
+        std::thread::sleep(Duration::from_millis(30));
+        if let Some(r) = requests_for(&ctx_b, &hash).last().cloned() {
+            viol.push((format!("a malformed compact block for an already pending header was not refused: the relayer asked its sender for {:?}", r), detail.clone()));
+        }
+        None
+    } else { wait_req(&ctx_b) };
     // the second peer answers its request with as many transactions as it was asked for
     if let Some((idx, _)) = req_b {
         let reply: Vec<packed::Transaction> = idx.iter().map(|i| if (*i as usize) < txs.len() { txs[*i as usize].data() } else { mk_tx(500 + (*i as u64 - txs.len() as u64)).data() }).collect();
@@ -726,7 +759,7 @@ pub fn stream_rounds(rng: &mut Rng, out: &mut Out, thorough: bool) {
     // two peers, one header, different compact blocks
     for k in 0..(if thorough { 60 } else { 12 }) {
         for (what, detail) in two_peer_probe(&mut node, &rt, rng, k as u64) {
-            out.violation(&what, detail, Some(SIG_TWO_PEERS));
+            out.violation(&what, detail, None);
         }
         out.evaluations += 1;
         out.count("two_peer_probes");
